@@ -26,7 +26,7 @@ ASSUMPTIONS = [
     "reference FastHash64 (anchored to published vectors) and its inverse on one 8-byte block for constructing keys with a chosen (register, rank)",
 ]
 
-CFG = st.builds(lambda p, s: {"kind": "hll", "p": p, "seed": s}, st.integers(7, 16), vs.seeds64)
+CFG = st.builds(lambda p, s, at: {"kind": "hll", "p": p, "seed": s, **({"argtype": at} if at else {})}, st.integers(7, 16), vs.seeds64, st.sampled_from([None, None, None, "u8", "i8", "u16", "i64", "u64", "i32"]))
 
 _HCACHE = {}
 
